@@ -109,7 +109,7 @@ def check_number(case):
 
 # ---------------------------------------------------------------- string literals
 
-content_alpha = st.one_of(st.text(max_size=20), st.text(st.sampled_from('ab 1+-*/,;\\(){}#!?=<>&%^.:$\'"\t\n'), max_size=12),
+content_alpha = st.one_of(st.text(max_size=20), st.lists(st.sampled_from(['e\u0301', '\u00e9', 'A\u030a', '\u212b', '\u2126', '\u212a', '\ufb01', '\u1100\u1161', '\uf900', 'x', ' ', '\u0344', '\u00a0', '\u3000', '\u200b']), max_size=6).map(''.join), st.text(st.sampled_from('ab 1+-*/,;\\(){}#!?=<>&%^.:$\'"\t\n'), max_size=12),
                           st.sampled_from(['', ' ', '  ', '#N/A', '1+1', 'A1', ',', ';', '\\', '{', ')', 'TRUE', "it's", 'say "hi"', '=SUM(1,2)', '\\', 'a\\', '\\\\', ' x ']))
 
 
